@@ -20,6 +20,16 @@ META = {
         "note": "Trusted: as C01. Full statement false on the unchanged tree (F1, recorded as a known finding).",
         "technique": "Lean 4 invariant/quiescence proof over ledger traces + differential correspondence + Lean-evaluated monitors",
     },
+    "C06": {
+        "text": "Kernel-checked theorems: the partition key is a function of (relation, transaction id) only; per method it is the "
+                "transaction id / the decimal of crc32(txn) mod buckets (< buckets, equal for equal txn) / the relation / the empty key; "
+                "the Kinesis record key is the batch key when partitioning is on and the record's LSN otherwise; name tables and the "
+                "Kinesis factory decision are regenerated from source and compared by decide. That every batch holds exactly one "
+                "partition key is the master batcher theorem (C04 batch_single_key). Partitioner stage, crc32 and the batcher with "
+                "real Kinesis batches (record keys observed) are tied by differential correspondence.",
+        "note": "Trusted: Lean kernel, factgen, harness; hash/crc32 is re-implemented in Lean and compared on random inputs.",
+        "technique": "Lean 4 decision-logic theorems + regenerated tables (decide) + differential correspondence",
+    },
     "C08": {
         "text": "Kernel-checked theorems: filter_iff (the stage forwards a message iff it is a BEGIN/COMMIT marker or its table is "
                 "permitted, for every configuration and every regexp oracle) and cli_filter_correct, which is about the if/else "
